@@ -74,6 +74,16 @@ impl BuildRecord {
             });
         }
 
+        self.validate_text("product", &self.product)?;
+        if self.product.starts_with('#') {
+            // A summary row starting with '#' is a BPSV comment line
+            return Err(DatabaseError::InvalidField {
+                field: "product".to_string(),
+                build_id: self.id,
+                reason: "product name cannot start with '#'".to_string(),
+            });
+        }
+
         // Validate version and build
         if self.version.is_empty() {
             return Err(DatabaseError::InvalidField {
@@ -82,6 +92,7 @@ impl BuildRecord {
                 reason: "version cannot be empty".to_string(),
             });
         }
+        self.validate_text("version", &self.version)?;
 
         if self.build.is_empty() {
             return Err(DatabaseError::InvalidField {
@@ -91,11 +102,30 @@ impl BuildRecord {
             });
         }
 
+        // The build number is served in a decimal (DEC) BPSV column
+        if !self.build.bytes().all(|b| b.is_ascii_digit()) || self.build.parse::<i64>().is_err() {
+            return Err(DatabaseError::InvalidField {
+                field: "build".to_string(),
+                build_id: self.id,
+                reason: format!("expected a decimal build number, got '{}'", self.build),
+            });
+        }
+
         // Validate MD5 hashes (32 hex characters)
         self.validate_hash("build_config", &self.build_config)?;
         self.validate_hash("cdn_config", &self.cdn_config)?;
+        if let Some(ref keyring) = self.keyring
+            && !keyring.is_empty()
+        {
+            self.validate_hash("keyring", keyring)?;
+        }
         if let Some(ref config) = self.product_config {
             self.validate_hash("product_config", config)?;
+        }
+
+        // The CDN path override is served verbatim in the cdns response
+        if let Some(ref cdn_path) = self.cdn_path {
+            self.validate_text("cdn_path", cdn_path)?;
         }
 
         // Validate content keys (32 hex characters)
@@ -117,6 +147,27 @@ impl BuildRecord {
         }
 
         Ok(())
+    }
+
+    /// Validate that a free-text value survives a BPSV row unchanged: no
+    /// field separator, no line break or other control character, and no
+    /// leading or trailing white space (readers trim each line).
+    fn validate_text(&self, field: &str, value: &str) -> Result<(), DatabaseError> {
+        let reason = if value.contains('|') {
+            "contains the BPSV field separator '|'"
+        } else if value.chars().any(char::is_control) {
+            "contains a line break or other control character"
+        } else if value.trim() != value {
+            "has leading or trailing white space"
+        } else {
+            return Ok(());
+        };
+
+        Err(DatabaseError::InvalidField {
+            field: field.to_string(),
+            build_id: self.id,
+            reason: reason.to_string(),
+        })
     }
 
     /// Validate that a hash string is exactly 32 hex characters.
@@ -281,6 +332,50 @@ mod tests {
         build.cdn_config = "gggggggggggggggggggggggggggggggg".to_string();
         let err = build.validate().unwrap_err();
         assert!(matches!(err, DatabaseError::InvalidField { .. }));
+    }
+
+    #[test]
+    fn test_text_fields_must_survive_a_bpsv_row() {
+        for bad in ["1.0|2", "1.0\n2", "1.0\r", " 1.0", "1.0\t"] {
+            let mut build = create_test_build();
+            build.version = bad.to_string();
+            assert!(build.validate().is_err(), "version {bad:?}");
+
+            let mut build = create_test_build();
+            build.product = bad.to_string();
+            assert!(build.validate().is_err(), "product {bad:?}");
+
+            let mut build = create_test_build();
+            build.cdn_path = Some(bad.to_string());
+            assert!(build.validate().is_err(), "cdn_path {bad:?}");
+        }
+
+        let mut build = create_test_build();
+        build.product = "#wow".to_string();
+        assert!(build.validate().is_err());
+
+        let mut build = create_test_build();
+        build.version = "1.0 beta #3!".to_string();
+        build.cdn_path = Some("tpr/wow".to_string());
+        assert!(build.validate().is_ok());
+    }
+
+    #[test]
+    fn test_build_and_keyring_match_their_column_types() {
+        for bad in ["12a", "+5", " 5", "9223372036854775808"] {
+            let mut build = create_test_build();
+            build.build = bad.to_string();
+            assert!(build.validate().is_err(), "build {bad:?}");
+        }
+        for bad in ["zzzzzzzzzzzzzzzzzzzzzzzzzzzzzzzz", "abc"] {
+            let mut build = create_test_build();
+            build.keyring = Some(bad.to_string());
+            assert!(build.validate().is_err(), "keyring {bad:?}");
+        }
+        let mut build = create_test_build();
+        build.build = "007".to_string();
+        build.keyring = Some("3CA57FE7319A297346440E4D2A03A0CD".to_string());
+        assert!(build.validate().is_ok());
     }
 
     #[test]
